@@ -279,7 +279,23 @@ func observeArgv(sc *Scenario, ord Order, st *obsStats, shared []string) (out st
 			os.Unsetenv("COMP_LINE")
 			os.Unsetenv("ZSHELL")
 		}()
-		for _, mode := range []string{"parse", "bash", "zsh"} {
+		// executions are independent of each other: the order in which the three requests are served
+		// within one execution is not part of the input either
+		modes := []string{"parse", "bash", "zsh"}
+		if ord.Base == "rot" || (ord.Base == "shuffle" && ord.Seed%3 == 2) {
+			modes = []string{"zsh", "parse", "bash"}
+		}
+		parts := map[string]*strings.Builder{}
+		defer func() {
+			for _, mode := range []string{"parse", "bash", "zsh"} {
+				if pb := parts[mode]; pb != nil {
+					b.WriteString(pb.String())
+				}
+			}
+		}()
+		for _, mode := range modes {
+			pb := &strings.Builder{}
+			parts[mode] = pb
 			var w, cw bytes.Buffer
 			oldW := getoptions.Writer
 			getoptions.Writer = &w
@@ -296,8 +312,13 @@ func observeArgv(sc *Scenario, ord Order, st *obsStats, shared []string) (out st
 			os.Unsetenv("COMP_LINE")
 			os.Unsetenv("ZSHELL")
 			if mode != "parse" {
+				// the environment is a set: which of the two was exported first is not part of it
+				zfirst := mode == "zsh" && (ord.Base == "desc" || (ord.Base == "shuffle" && ord.Seed%2 == 1))
+				if zfirst {
+					os.Setenv("ZSHELL", "true")
+				}
 				os.Setenv("COMP_LINE", sc.CompLine)
-				if mode == "zsh" {
+				if mode == "zsh" && !zfirst {
 					os.Setenv("ZSHELL", "true")
 				}
 			}
@@ -356,16 +377,16 @@ func observeArgv(sc *Scenario, ord Order, st *obsStats, shared []string) (out st
 					in = shared
 				}
 				rem, err := opt.Parse(in)
-				fmt.Fprintf(&b, "%s.remaining=%q\n%s.error=%s\n%s.exit=%d\n%s.completions=%q\n", mode, rem, mode, errClass(err), mode, exit, mode, cw.String())
+				fmt.Fprintf(pb, "%s.remaining=%q\n%s.error=%s\n%s.exit=%d\n%s.completions=%q\n", mode, rem, mode, errClass(err), mode, exit, mode, cw.String())
 				if mode == "parse" {
 					for _, n := range nodes {
 						for _, d := range append(append([]OptDef(nil), n.def.Opts...), n.def.LateOpts...) {
-							fmt.Fprintf(&b, "value %s --%s=%v called=%v as=%q\n", n.path, d.Name, n.opt.Value(d.Name), n.opt.Called(d.Name), n.opt.CalledAs(d.Name))
+							fmt.Fprintf(pb, "value %s --%s=%v called=%v as=%q\n", n.path, d.Name, n.opt.Value(d.Name), n.opt.Called(d.Name), n.opt.CalledAs(d.Name))
 						}
 					}
 					for _, n := range nodes {
 						if sv := sharedVars[n.opt]; sv != nil {
-							fmt.Fprintf(&b, "shared-vars %s=%q\n", n.path, sv[1:])
+							fmt.Fprintf(pb, "shared-vars %s=%q\n", n.path, sv[1:])
 						}
 					}
 					if err == nil {
@@ -373,7 +394,7 @@ func observeArgv(sc *Scenario, ord Order, st *obsStats, shared []string) (out st
 						getoptions.Writer = &rw
 						a1, rest, e1 := opt.GetRequiredArg(rem)
 						_, _, e2 := opt.GetRequiredArgInt(rest)
-						fmt.Fprintf(&b, "required-arg=%q %s %s writer=%q\n", a1, errClass(e1), errClass(e2), rw.String())
+						fmt.Fprintf(pb, "required-arg=%q %s %s writer=%q\n", a1, errClass(e1), errClass(e2), rw.String())
 						getoptions.Writer = &w
 						// the context the program hands to Dispatch is part of the input
 						dctx, dcancel := context.Background(), context.CancelFunc(func() {})
@@ -389,7 +410,7 @@ func observeArgv(sc *Scenario, ord Order, st *obsStats, shared []string) (out st
 						}
 						fnErr = sc.FnErr
 						derr := opt.Dispatch(dctx, rem)
-						fmt.Fprintf(&b, "dispatch.error=%s\ndispatch.ran=%s\n", errClass(derr), ran)
+						fmt.Fprintf(pb, "dispatch.error=%s\ndispatch.ran=%s\n", errClass(derr), ran)
 						fnCancel, fnErr = nil, false
 						dcancel()
 						if reparseProbe {
@@ -402,25 +423,25 @@ func observeArgv(sc *Scenario, ord Order, st *obsStats, shared []string) (out st
 								opt.Dispatch(context.Background(), rem2)
 							}
 							if fmt.Sprint(rem2) != fmt.Sprint(rem) || errClass(err2) != errClass(err) || (err2 == nil && ran != ran1) {
-								fmt.Fprintf(&b, "NONIDEMPOTENT reparse: first remaining=%q error=%s ran=%q, second remaining=%q error=%s ran=%q\n", rem, errClass(err), ran1, rem2, errClass(err2), ran)
+								fmt.Fprintf(pb, "NONIDEMPOTENT reparse: first remaining=%q error=%s ran=%q, second remaining=%q error=%s ran=%q\n", rem, errClass(err), ran1, rem2, errClass(err2), ran)
 							}
 						}
 					}
 					for _, n := range nodes {
 						h := n.opt.Help()
-						fmt.Fprintf(&b, "help %s=%q\n", n.path, h)
+						fmt.Fprintf(pb, "help %s=%q\n", n.path, h)
 						if n.path == "prog" {
-							fmt.Fprintf(&b, "help-sections %s=%q|%q|%q|%q\n", n.path, n.opt.Help(getoptions.HelpName), n.opt.Help(getoptions.HelpSynopsis),
+							fmt.Fprintf(pb, "help-sections %s=%q|%q|%q|%q\n", n.path, n.opt.Help(getoptions.HelpName), n.opt.Help(getoptions.HelpSynopsis),
 								n.opt.Help(getoptions.HelpCommandList), n.opt.Help(getoptions.HelpOptionList))
 						}
 						// the same definition object asked again must answer the same
 						if h2 := n.opt.Help(); h2 != h {
-							fmt.Fprintf(&b, "NONIDEMPOTENT help %s: second rendering differs: %s\n", n.path, firstDiff(h, h2))
+							fmt.Fprintf(pb, "NONIDEMPOTENT help %s: second rendering differs: %s\n", n.path, firstDiff(h, h2))
 						}
 					}
 				}
-				fmt.Fprintf(&b, "%s.writer=%q\n", mode, w.String())
-				fmt.Fprintf(&b, "%s.callbacks=%s\n", mode, calls.String())
+				fmt.Fprintf(pb, "%s.writer=%q\n", mode, w.String())
+				fmt.Fprintf(pb, "%s.callbacks=%s\n", mode, calls.String())
 			}()
 		}
 	})
